@@ -655,7 +655,7 @@ def _write_moc_fits(hsp_map, filename, clobber=False):
 
     uniq = 4*(4**max_order) + pixels
 
-    uniq_map = hsp_map.make_empty(hsp_map.nside_coverage, hsp_map.nside_sparse, dtype=np.float32)
+    uniq_map = hsp_map.make_empty(hsp_map.nside_coverage, hsp_map.nside_sparse, dtype=np.float64)
     uniq_map[pixels] = 1.0
 
     # Loop over orders, degrade each time, and look for pixels with full coverage.
@@ -663,7 +663,7 @@ def _write_moc_fits(hsp_map, filename, clobber=False):
         uniq_map = uniq_map.degrade(2**uniq_order, reduction='sum')
         pix_shift = np.right_shift(pixels, 2*(max_order - uniq_order))
         # Check if any of the pixels at uniq_order have full coverage.
-        covered, = np.isclose(uniq_map[pix_shift], 4**(max_order - uniq_order)).nonzero()
+        covered, = (uniq_map[pix_shift] == 4**(max_order - uniq_order)).nonzero()
         if covered.size == 0:
             # No pixels at uniq_order are fully covered, we're done.
             break
